@@ -45,6 +45,26 @@ pub struct Nums {
     on: Option<bool>,
 }
 #[derive(Deserialize, PartialEq, Debug, Clone)]
+#[serde(rename_all = "kebab-case")]
+pub enum Colour {
+    Red,
+    DarkBlue,
+    #[serde(rename = "G")]
+    Green,
+}
+#[derive(Deserialize, PartialEq, Debug, Clone)]
+pub struct Wrapped(String);
+#[derive(Deserialize, PartialEq, Debug, Clone)]
+pub struct Misc {
+    ch: char,
+    och: Option<char>,
+    f: f64,
+    colour: Colour,
+    w: Wrapped,
+    byte: u8,
+    ocolour: Option<Colour>,
+}
+#[derive(Deserialize, PartialEq, Debug, Clone)]
 pub struct Sub {
     sid: String,
 }
@@ -65,6 +85,21 @@ enum Ty {
     OptI8,
     OptU64,
     OptBool,
+    Char,
+    OptChar,
+    F64,
+    Enum,
+    OptEnum,
+    Newtype,
+    U8,
+}
+fn colour(v: &str) -> Option<Colour> {
+    match v {
+        "red" => Some(Colour::Red),
+        "dark-blue" => Some(Colour::DarkBlue),
+        "G" => Some(Colour::Green),
+        _ => None,
+    }
 }
 impl Ty {
     fn key(&self) -> &'static str {
@@ -76,10 +111,17 @@ impl Ty {
             Ty::Bool => "bool",
             Ty::OptI8 | Ty::OptU64 => "Option-integer",
             Ty::OptBool => "Option-bool",
+            Ty::Char => "char",
+            Ty::OptChar => "Option-char",
+            Ty::F64 => "float",
+            Ty::Enum => "unit-enum",
+            Ty::OptEnum => "Option-unit-enum",
+            Ty::Newtype => "newtype",
+            Ty::U8 => "integer",
         }
     }
     fn optional(&self) -> bool {
-        matches!(self, Ty::OptStr | Ty::OptCow | Ty::OptI8 | Ty::OptU64 | Ty::OptBool)
+        matches!(self, Ty::OptStr | Ty::OptCow | Ty::OptI8 | Ty::OptU64 | Ty::OptBool | Ty::OptChar | Ty::OptEnum)
     }
     /// is `v` the canonical text of a value of this type?
     fn fits(&self, v: &str) -> bool {
@@ -93,18 +135,25 @@ impl Ty {
             Ty::OptI8 => canon::<i8>(v),
             Ty::OptU64 => canon::<u64>(v),
             Ty::Bool | Ty::OptBool => v == "true" || v == "false",
+            Ty::Char | Ty::OptChar => v.chars().count() == 1,
+            Ty::F64 => v.parse::<f64>().map(|x| x.is_finite() && x.to_string() == v).unwrap_or(false),
+            Ty::Enum | Ty::OptEnum => colour(v).is_some(),
+            Ty::Newtype => true,
+            Ty::U8 => canon::<u8>(v),
         }
     }
 }
 const STRS_FIELDS: [(&str, Ty); 5] = [("sid", Ty::Str), ("user", Ty::CowStr), (TOK, Ty::Str), ("theme", Ty::OptStr), (ODD, Ty::OptCow)];
 const NUMS_FIELDS: [(&str, Ty); 6] = [("n", Ty::U32), ("neg", Ty::I64), ("flag", Ty::Bool), ("small", Ty::OptI8), ("BIG", Ty::OptU64), ("on", Ty::OptBool)];
 const SUB_FIELDS: [(&str, Ty); 1] = [("sid", Ty::Str)];
+const MISC_FIELDS: [(&str, Ty); 7] = [("ch", Ty::Char), ("och", Ty::OptChar), ("f", Ty::F64), ("colour", Ty::Enum), ("w", Ty::Newtype), ("byte", Ty::U8), ("ocolour", Ty::OptEnum)];
 
 fn fields_of(target: u8) -> &'static [(&'static str, Ty)] {
-    match target % 4 {
+    match target % 5 {
         0 => &STRS_FIELDS,
         1 => &NUMS_FIELDS,
         2 => &SUB_FIELDS,
+        4 => &MISC_FIELDS,
         _ => &[],
     }
 }
@@ -122,7 +171,7 @@ pub struct CookieM {
 }
 #[derive(Debug, Clone, Serialize, Deserialize, PartialEq)]
 pub struct Jar {
-    /// 0 `Strs`, 1 `Nums`, 2 `Sub`, 3 string map only
+    /// 0 `Strs`, 1 `Nums`, 2 `Sub`, 3 string map only, 4 `Misc` (char, float, unit enum, newtype, u8)
     pub target: u8,
     /// in header order
     pub cookies: Vec<CookieM>,
@@ -501,6 +550,13 @@ fn single_typed(ty: Ty, wire: &str, value: &str) -> Result<(), (Option<String>, 
         Ty::OptI8 => expect(&h, &One { v: value.parse::<i8>().ok() }, |x| x),
         Ty::OptU64 => expect(&h, &One { v: value.parse::<u64>().ok() }, |x| x),
         Ty::OptBool => expect(&h, &One { v: Some(value == "true") }, |x| x),
+        Ty::Char => expect(&h, &One { v: value.chars().next().unwrap_or('?') }, |x| x),
+        Ty::OptChar => expect(&h, &One { v: value.chars().next() }, |x| x),
+        Ty::F64 => expect(&h, &One { v: value.parse::<f64>().unwrap_or_default() }, |x| x),
+        Ty::Enum => expect(&h, &One { v: colour(value).unwrap_or(Colour::Red) }, |x| x),
+        Ty::OptEnum => expect(&h, &One { v: colour(value) }, |x| x),
+        Ty::Newtype => expect(&h, &One { v: Wrapped(p(value)) }, |x| x),
+        Ty::U8 => expect(&h, &One { v: value.parse::<u8>().unwrap_or_default() }, |x| x),
     }
 }
 
@@ -548,10 +604,11 @@ impl C11 {
         let wires: Vec<(String, Form)> = jar.cookies.iter().map(wire).collect();
         let header = jar.cookies.iter().zip(&wires).map(|(c, (w, _))| format!("{}={}", c.name, w)).collect::<Vec<_>>().join("; ");
         let fields = fields_of(jar.target);
-        obs.label(match jar.target % 4 {
+        obs.label(match jar.target % 5 {
             0 => "decode:target-strings",
             1 => "decode:target-typed",
             2 => "decode:target-subset",
+            4 => "decode:target-misc",
             _ => "decode:target-map-only",
         });
         for (_, f) in &wires {
@@ -613,7 +670,20 @@ impl C11 {
             }
         };
         // (3) the whole header into the catalogue struct
-        let typed: Option<Result<(), (Option<String>, String)>> = match jar.target % 4 {
+        let typed: Option<Result<(), (Option<String>, String)>> = match jar.target % 5 {
+            4 => Some(expect(
+                &header,
+                &Misc {
+                    ch: get("ch").and_then(|v| v.chars().next()).unwrap_or('?'),
+                    och: get("och").and_then(|v| v.chars().next()),
+                    f: get("f").and_then(|v| v.parse().ok()).unwrap_or_default(),
+                    colour: get("colour").and_then(|v| colour(&v)).unwrap_or(Colour::Red),
+                    w: Wrapped(get("w").unwrap_or_default()),
+                    byte: get("byte").and_then(|v| v.parse().ok()).unwrap_or_default(),
+                    ocolour: get("ocolour").and_then(|v| colour(&v)),
+                },
+                |x| x,
+            )),
             0 => Some(expect(
                 &header,
                 &norm_strs(Strs { sid: get("sid").unwrap_or_default(), user: Cow::Owned(get("user").unwrap_or_default()), tok: get(TOK).unwrap_or_default(), theme: get("theme"), lang: get(ODD).map(Cow::Owned) }),
@@ -636,7 +706,7 @@ impl C11 {
         };
         if let Some(Err((pk, d))) = typed {
             if !any_single_failed && map_ok {
-                let which = ["strings", "typed", "subset"][jar.target as usize % 4];
+                let which = ["strings", "typed", "subset", "map", "misc"][jar.target as usize % 5];
                 obs.fail(format!("decode:struct:{which}:combination{}", pk.map(|k| format!(":{k}")).unwrap_or_default()), format!("every cookie decodes alone and the header decodes into a map, the struct does not: {d}"));
             }
         }
@@ -856,6 +926,18 @@ fn jar() -> BoxedStrategy<Jar> {
         3 => jar_for(0, vec![named("sid", value(0).boxed()), named("user", value(0).boxed()), named(TOK, value(0).boxed())], vec![named("theme", opt_value()), named(ODD, opt_value())], 2),
         3 => jar_for(1, vec![named("n", ints!(u32).boxed()), named("neg", ints!(i64).boxed()), named("flag", bools().boxed())], vec![named("small", ints!(i8).boxed()), named("BIG", ints!(u64).boxed()), named("on", bools().boxed())], 2),
         1 => jar_for(2, vec![named("sid", value(0).boxed())], vec![], 5),
+        3 => jar_for(
+            4,
+            vec![
+                named("ch", uchar().prop_map(|c| c.to_string()).boxed()),
+                named("f", prop_oneof![any::<f64>().prop_filter("finite", |x| x.is_finite()), (-1000i32..1000).prop_map(|i| i as f64 / 8.0), Just(0.0f64), Just(-0.0f64), Just(f64::MAX), Just(f64::MIN_POSITIVE)].prop_map(|x| x.to_string()).boxed()),
+                named("colour", prop::sample::select(vec!["red", "dark-blue", "G"]).prop_map(|s| s.to_string()).boxed()),
+                named("w", value(0).boxed()),
+                named("byte", ints!(u8).boxed()),
+            ],
+            vec![named("och", uchar().prop_map(|c| c.to_string()).boxed()), named("ocolour", prop::sample::select(vec!["red", "dark-blue", "G"]).prop_map(|s| s.to_string()).boxed())],
+            1
+        ),
         3 => vec(cookie(token(), value(0)), 1..=6)
             .prop_map(|mut cs| {
                 let mut seen = std::collections::BTreeSet::new();
@@ -910,7 +992,7 @@ fn built() -> impl Strategy<Value = Built> {
 impl Property for C11 {
     type Case = Case;
     const ID: &'static str = "C11";
-    const RULE: &'static str = "generated: (1) Decode — jars of 1–6 distinct cookies, names over the RFC 6265 token alphabet, values over arbitrary Unicode (cookie-octet-only values, `=`, `;`, `,`, quotes, `%`, controls over-represented), each written by an independent encoder as plain or double-quoted (only when the value consists of cookie-octets other than `%`), percent-encoded minimally or except alphanumerics in either hex case, or quoted and percent-encoded; joined with `; `. Jars are generated to fit a target: a struct of String / Cow<str> / renamed / Option fields, a struct of u32 / i64 / bool / Option<i8|u64|bool> fields (canonical decimal texts, MIN/MAX bias), a one-field subset struct, each with absent optional cookies, unknown extra cookies and a shuffled order, or only a BTreeMap<String,String>. Oracle: serde_cookie::from_str of every single cookie (into a map and into `struct {v: T}` of its field type), of the whole header into a string map and into the target struct equals the jar; `GET /c` with `Cookie: <header>` through the real parser makes `req.headers.Cookies()` yield the (name, raw value) cookie-pairs of the header verbatim, in order. (2) Build — one of 6 fixed token names, a value over arbitrary Unicode, any subset in any call order of Expires (rfc1123-date of 0 … 9999-12-31), Max-Age (0 … u64::MAX), Domain (RFC 1034 subdomain), Path (CHARs except CTLs and `;`, no SP at either end), Secure, HttpOnly, SameSite, built through `res.headers.set().SetCookie(name, value, |d| …)` inside a handler. Oracle: the parsed response has exactly one Set-Cookie line; it satisfies an independent RFC 6265 §4.1.1 set-cookie-string grammar checker; the independent parser recovers the value (after percent-decoding) and every directive; the crate's public `headers.SetCookie()` iterator, asked inside the handler, recovers the same. Failure keys: for decoding the wire form of the cookie that fails alone (`equals-sign-in-value` when its value carries a raw `=`), or the field type, or `jar-structure` / `combination` when only the whole fails; for building the grammar production or directive that deviates. Non-trivial = a value needing encoding or quoting or containing `=`, or ≥ 3 directives; distinct by case.";
+    const RULE: &'static str = "generated: (1) Decode — jars of 1–6 distinct cookies, names over the RFC 6265 token alphabet, values over arbitrary Unicode (cookie-octet-only values, `=`, `;`, `,`, quotes, `%`, controls over-represented), each written by an independent encoder as plain or double-quoted (only when the value consists of cookie-octets other than `%`), percent-encoded minimally or except alphanumerics in either hex case, or quoted and percent-encoded; joined with `; `. Jars are generated to fit a target: a struct of String / Cow<str> / renamed / Option fields, a struct of u32 / i64 / bool / Option<i8|u64|bool> fields (canonical decimal texts, MIN/MAX bias), a one-field subset struct, a struct of char / Option<char> / f64 / unit enum (renamed variants) / newtype / u8 fields, each with absent optional cookies, unknown extra cookies and a shuffled order, or only a BTreeMap<String,String>. Oracle: serde_cookie::from_str of every single cookie (into a map and into `struct {v: T}` of its field type), of the whole header into a string map and into the target struct equals the jar; `GET /c` with `Cookie: <header>` through the real parser makes `req.headers.Cookies()` yield the (name, raw value) cookie-pairs of the header verbatim, in order. (2) Build — one of 6 fixed token names, a value over arbitrary Unicode, any subset in any call order of Expires (rfc1123-date of 0 … 9999-12-31), Max-Age (0 … u64::MAX), Domain (RFC 1034 subdomain), Path (CHARs except CTLs and `;`, no SP at either end), Secure, HttpOnly, SameSite, built through `res.headers.set().SetCookie(name, value, |d| …)` inside a handler. Oracle: the parsed response has exactly one Set-Cookie line; it satisfies an independent RFC 6265 §4.1.1 set-cookie-string grammar checker; the independent parser recovers the value (after percent-decoding) and every directive; the crate's public `headers.SetCookie()` iterator, asked inside the handler, recovers the same. Failure keys: for decoding the wire form of the cookie that fails alone (`equals-sign-in-value` when its value carries a raw `=`), or the field type, or `jar-structure` / `combination` when only the whole fails; for building the grammar production or directive that deviates. Non-trivial = a value needing encoding or quoting or containing `=`, or ≥ 3 directives; distinct by case.";
     const ASSUMPTIONS: &'static [&'static str] = &[
         "Option fields: an empty cookie value may decode to None or Some(\"\") (`empty = absent` convention; counted as ambiguous)",
         "typed fields only receive the canonical decimal / true / false text of a value of their type; cookie names are distinct",
